@@ -759,7 +759,7 @@ func extraC08Registry(c *Ctx, r *Report) {
 				closed := false
 				for _, cf := range normFacts(condFacts(in.Block())) {
 					bo, ok := cf.Cond.(*ssa.BinOp)
-					if !ok || bo.Op != token.EQL || !cf.True {
+					if !ok || !assertsEq(bo, cf.True) {
 						continue
 					}
 					for _, pair := range [][2]ssa.Value{{bo.X, bo.Y}, {bo.Y, bo.X}} {
@@ -6881,7 +6881,7 @@ func extraC11ListingHandlerScoped(c *Ctx, r *Report) {
 					for _, pb := range in.Block().Preds {
 						ok := false
 						for _, cf := range normFacts(edgeFacts(pb, in.Block())) {
-							if bo, isB := cf.Cond.(*ssa.BinOp); isB && bo.Op == token.EQL && cf.True {
+							if bo, isB := cf.Cond.(*ssa.BinOp); isB && assertsEq(bo, cf.True) {
 								for _, p := range strParams {
 									if bo.X == ssa.Value(p) || bo.Y == ssa.Value(p) {
 										ok = true
